@@ -37,7 +37,7 @@ CHECKS = {
          "control-dependence + effect analysis over HIR and the MIR call graph"),
  "C14": ("other", "O1 finite static evaluation of parse_with_variant on 28 argument classes per option enum, O2 heuristic returns the variant whose parser it ran, O3 call sites pass the detected letter and call no letterless parser, G5 emitted tag per variant, G7 detector coverage, G11/type the option enum standing at each message position = reference, U6/U7/E1 of the option enums and U6 of their variant payload parsers = reference. Stability for ambiguous contents is not decided.", "§4 C14",
          "finite-domain evaluation of match arms + def-use tracing over resolved HIR"),
- "C16": ("other", "K1 unmasked stamp, K2 collision-free tag normalisation on all used tags, K3 tracker never un-consumes, K4 exactly one push per path of the distribution loop, K5 tracker key agreement, U6/U7 accept conditions and delivered collections (every push / clear / retain / sort with its condition) of tokeniser, tracker and sequence splitting = reference. Tokeniser exactness on arbitrary text is not decided.", "§4 C16",
+ "C16": ("other", "K1 unmasked stamp, K2 collision-free tag normalisation on all used tags, K3 tracker never un-consumes, K4 exactly one push per path of the distribution loop, K5 tracker key agreement, K6 the ordering key of option-letter candidates consults the consumed set, U6/U7 accept conditions and delivered collections (every push / clear / retain / sort with its condition) of tokeniser, tracker and sequence splitting = reference. Tokeniser exactness on arbitrary text is not decided.", "§4 C16",
          "expression-shape, table evaluation, path enumeration and formula equivalence"),
  "C17": ("other", "R1 code-word literal sets disjoint per type and equal across MT103/202/205 + message-level dispatch set, R2 method-selection chains of the 30 plugin arms (predicate -> method, priority, sibling block-3 tests), R3 every narrative a predicate reads is traversed completely (no positional selection), U6 truth conditions of all classification predicates = reference, U7 the block-3 values the classification reads reach the model as written.", "§4 C17",
          "sibling cross-check of literals and if-chains + formula equivalence"),
